@@ -1,6 +1,7 @@
 //! Generators: list pairs for merge_preserve_order, class pairs, jar pairs.
 use crate::classes::*;
-use crate::{AContent, AEntry, AJar, Route};
+use crate::{AContent, AEntry, AJar, JarKind, Route};
+use crate::real::{real_pair, Corpus};
 use fbh::prng::Rng;
 
 pub fn plain_member(name: &str, desc: &str) -> AMember {
@@ -8,7 +9,7 @@ pub fn plain_member(name: &str, desc: &str) -> AMember {
 }
 pub fn plain_class(name: &str) -> AClass {
 	AClass { version: 4, access: 0x0021, name: name.to_owned(), sup: Some("j/Object".to_owned()), itfs: vec![], fields: vec![], methods: vec![],
-		depr: false, synth: false, inner: None, vis: vec![], inv: vec![], perm: None, records: vec![], source_file: None }
+		depr: false, synth: false, inner: None, vis: vec![], inv: vec![], perm: None, records: vec![], source_file: None, attrs: vec![] }
 }
 
 fn subseq_of(rng: &mut Rng, s: &[u32], keep_num: usize, keep_den: usize) -> Vec<u32> { s.iter().copied().filter(|_| rng.chance(keep_num, keep_den)).collect() }
@@ -127,8 +128,9 @@ fn class_pair(rng: &mut Rng, name: &str, twist: Twist) -> (AClass, AClass) {
 	c.depr = rng.chance(1, 8); c.synth = rng.chance(1, 10);
 	c.vis = gen_anns(rng); c.inv = gen_anns(rng);
 	if rng.chance(1, 4) { c.source_file = Some("A.java".into()); }
-	if rng.chance(1, 6) { c.perm = Some(vec!["net/minecraft/P".into()]); }
-	if rng.chance(1, 6) { c.records = vec!["r".into()]; }
+	if rng.chance(1, 5) { c.perm = Some(vec!["net/minecraft/P".into(), "net/minecraft/Q".into()]); }
+	if rng.chance(1, 5) { c.records = vec!["r".into()]; }
+	if rng.chance(1, 12) { c.attrs = vec![("Payload".into(), rng.next(), rng.range(0, 40))]; }
 	let mut s = c.clone();
 	match rng.below(5) {
 		0 => {} // identical
@@ -188,7 +190,7 @@ pub fn jar_pair(rng: &mut Rng, twist: Twist, route: Route) -> (AJar, AJar) {
 		let mut p = place(rng);
 		let tw = if !twisted && kind == 0 && twist != Twist::None && twist != Twist::KindMismatch && twist != Twist::BadBytes { twisted = true; p = 2; twist }
 			else if !twisted && kind == 0 && twist == Twist::BadBytes { twisted = true; twist }
-			else if !twisted && kind == 1 && twist == Twist::KindMismatch && route == Route::Parsed { twisted = true; p = 2; twist }
+			else if !twisted && kind == 1 && twist == Twist::KindMismatch && route.s == JarKind::Parsed { twisted = true; p = 2; twist }
 			else { Twist::None };
 		let (cc, sc) = match kind {
 			0 => {
@@ -208,10 +210,95 @@ pub fn jar_pair(rng: &mut Rng, twist: Twist, route: Route) -> (AJar, AJar) {
 			_ => (AContent::Dir, AContent::Dir),
 		};
 		let pr = rng.chance(1, 2);
-		if p == 0 || p == 2 { client.push(AEntry { name: n.to_owned(), time: gen_time(rng), content: cc, parsed_repr: pr }); }
-		if p == 1 || p == 2 { server.push(AEntry { name: n.to_owned(), time: gen_time(rng), content: sc, parsed_repr: if rng.chance(3, 4) { pr } else { !pr } }); }
+		if p == 0 || p == 2 { client.push(AEntry { parsed_repr: pr, deflate: rng.chance(1, 2), ..AEntry::new(n, gen_time(rng), cc) }); }
+		if p == 1 || p == 2 { server.push(AEntry { parsed_repr: if rng.chance(3, 4) { pr } else { !pr }, deflate: rng.chance(1, 2), ..AEntry::new(n, gen_time(rng), sc) }); }
 	}
 	// the two jars list their entries in independent orders
+	if rng.chance(1, 2) { rng.shuffle(&mut server); }
+	(client, server)
+}
+
+/// which implementations of `Jar` the two sides are
+pub fn gen_route(rng: &mut Rng) -> Route {
+	let zip = |rng: &mut Rng| *rng.pick(&[JarKind::Unnamed, JarKind::Unnamed, JarKind::Named, JarKind::File]);
+	match rng.below(10) {
+		0..=4 => Route { c: zip(rng), s: zip(rng) },
+		5..=7 => Route { c: JarKind::Parsed, s: JarKind::Parsed },
+		8 => Route { c: zip(rng), s: JarKind::Parsed },
+		_ => Route { c: JarKind::Parsed, s: zip(rng) },
+	}
+}
+pub fn gen_zip_route(rng: &mut Rng) -> Route {
+	let zip = |rng: &mut Rng| *rng.pick(&[JarKind::Unnamed, JarKind::Named, JarKind::File]);
+	Route { c: zip(rng), s: zip(rng) }
+}
+
+/// sizes around the buffers of a zip reader / inflater: a few bytes (control), below and above 32 KiB, 64 KiB, large
+const SIZES: [usize; 9] = [5, 100, 8192, 20000, 32768, 33000, 65537, 100000, 200000];
+
+/// Jars of real zip entries: large incompressible contents (DEFLATE cannot shrink `noise`), large
+/// compressible ones and small controls, compressed or stored; as a resource both sides have (equal /
+/// different), a resource one side has, a class identical on both sides, a class one side has and a
+/// class that differs between the sides — the latter three carry the bytes in an attribute unknown to
+/// the JVMS, which the merge has to hand through.
+pub fn big_jar_pair(rng: &mut Rng) -> (AJar, AJar) {
+	let mut client: AJar = vec![]; let mut server: AJar = vec![];
+	let size = |rng: &mut Rng| *rng.pick(&SIZES);
+	let defl = |rng: &mut Rng| rng.chance(4, 5);
+	let mut res = |rng: &mut Rng, name: &str, to_c: bool, to_s: bool, same: bool| {
+		let len = size(rng);
+		let mk = |rng: &mut Rng| -> (Vec<u8>, String) {
+			if rng.chance(1, 6) { let b = rng.below(256) as u8; (vec![b; len], format!("{len} times the byte {b}")) } else { let sd = rng.next(); (noise(sd, len), format!("noise({sd}, {len})")) }
+		};
+		let (d, o) = mk(rng);
+		let (d2, o2) = if same { (d.clone(), o.clone()) } else { mk(rng) };
+		if to_c { client.push(AEntry { deflate: defl(rng), origin: o, ..AEntry::new(name, gen_time(rng), AContent::Other(d)) }); }
+		if to_s { server.push(AEntry { deflate: defl(rng), origin: o2, ..AEntry::new(name, gen_time(rng), AContent::Other(d2)) }); }
+	};
+	if rng.chance(3, 4) { res(rng, "assets/shared.bin", true, true, true); }
+	if rng.chance(1, 2) { res(rng, "assets/differs.bin", true, true, false); }
+	if rng.chance(3, 4) { res(rng, "assets/client_only.bin", true, false, true); }
+	if rng.chance(3, 4) { res(rng, "data/server_only.bin", false, true, true); }
+	if rng.chance(1, 2) { res(rng, "META-INF/services/big", true, true, true); }
+	let mut class = |rng: &mut Rng, entry: &str, cname: &str, to_c: bool, to_s: bool, differ: bool| {
+		let mut c = plain_class(cname);
+		c.version = rng.below(VERSIONS.len());
+		c.attrs = vec![("Payload".to_owned(), rng.next(), size(rng))];
+		if rng.chance(1, 3) { c.attrs.push(("Extra".to_owned(), rng.next(), size(rng) / 4)); }
+		let method = |n: &str| AMember { payload: Some(7), ..plain_member(n, "()V") };
+		c.methods = vec![method("m0")];
+		let mut s = c.clone();
+		if differ {
+			c.methods.push(method("onlyClient")); s.fields.push(plain_member("onlyServer", "I"));
+			c.itfs.push("I1".into());
+			if rng.chance(1, 2) { s.attrs[0].1 ^= 1; } // the server's attribute has other bytes: the client's are kept
+		}
+		if to_c { client.push(AEntry { deflate: defl(rng), ..AEntry::new(entry, gen_time(rng), AContent::Class(c)) }); }
+		if to_s { server.push(AEntry { deflate: defl(rng), ..AEntry::new(entry, gen_time(rng), AContent::Class(s)) }); }
+	};
+	if rng.chance(3, 4) { class(rng, "net/minecraft/Big.class", "net/minecraft/Big", true, true, false); }
+	if rng.chance(1, 2) { class(rng, "net/minecraft/BigClient.class", "net/minecraft/BigClient", true, false, false); }
+	if rng.chance(1, 2) { class(rng, "net/minecraft/BigServer.class", "net/minecraft/BigServer", false, true, false); }
+	if rng.chance(1, 2) { class(rng, "net/minecraft/BigMerged.class", "net/minecraft/BigMerged", true, true, true); }
+	client.push(AEntry::new("assets/small.txt", gen_time(rng), AContent::Other(b"hello".to_vec())));
+	server.push(AEntry { deflate: true, ..AEntry::new("assets/small.txt", gen_time(rng), AContent::Other(b"hello".to_vec())) });
+	rng.shuffle(&mut client); rng.shuffle(&mut server);
+	(client, server)
+}
+
+/// Jars of real classes (real.rs): each class in two builds, some classes on one side only, a resource
+pub fn real_jar_pair(rng: &mut Rng, corpus: &Corpus, kinds: &mut Vec<&'static str>) -> (AJar, AJar) {
+	let mut client: AJar = vec![]; let mut server: AJar = vec![];
+	let n = rng.range(1, 3);
+	for i in 0..n {
+		let Some(p) = real_pair(rng, corpus) else { kinds.push("skipped (duke cannot read or write a build, or a generated class repeats a key)"); continue };
+		let name = format!("net/minecraft/k/C{i}.class");
+		let place = rng.below(8); // mostly on both sides
+		kinds.push(p.kind);
+		if place != 0 { client.push(AEntry { deflate: rng.chance(1, 2), origin: p.origin_c, ..AEntry::new(&name, gen_time(rng), AContent::RawClass(p.client)) }); }
+		if place != 1 { server.push(AEntry { deflate: rng.chance(1, 2), origin: p.origin_s, ..AEntry::new(&name, gen_time(rng), AContent::RawClass(p.server)) }); }
+	}
+	if rng.chance(1, 2) { let d = gen_bytes(rng); client.push(AEntry::new("pack.png", gen_time(rng), AContent::Other(d.clone()))); server.push(AEntry::new("pack.png", gen_time(rng), AContent::Other(d))); }
 	if rng.chance(1, 2) { rng.shuffle(&mut server); }
 	(client, server)
 }
